@@ -20,7 +20,7 @@ LOOKALIKE = ["Select2", "count", "ResultParquet", "Zip", "select", "Wheres"]
 
 RULE = (
     "Typed grammar (int / bool / seq / seq-of-seq / result) rendered as source text, every operator drawn in method "
-    "form or function form independently at every depth (sources, lambda bodies, arguments), with look-alike "
+    "form or function form independently at every depth (sources, lambda bodies, arguments, callee expressions), with look-alike "
     "non-operator methods (Select2, count, ResultParquet, Zip, select, Wheres) and non-call attribute references "
     "(x.Select as a value). Non-trivial = >=2 method-form operator calls at different depths AND >=1 look-alike or "
     "attribute reference. Distinct by source text + data."
@@ -32,7 +32,7 @@ ASSUMPTIONS = [
     "Value equality is checked on the LINQ subset with python sequences; CPython is the evaluator.",
 ]
 BUDGET = {"quick": (4, 1200), "thorough": (16, 10000)}
-EXHAUSTIVE_NOTE = "12 operator names + 6 look-alikes x 10 syntactic positions (incl. keyword-argument values, dict values, tuple/list elements) x method/function form, fully enumerated"
+EXHAUSTIVE_NOTE = "12 operator names + 6 look-alikes x 13 syntactic positions (incl. keyword-argument values, dict values, tuple/list elements, the callee of a call) x method/function form, fully enumerated"
 
 
 class SeqX(pyeval.Seq):
@@ -91,6 +91,7 @@ def _env(data):
         Min=lambda s: min(s),
         keep=lambda f, v: v,
         kw=lambda v, w=0: v,
+        ident=lambda f: f,
     )
     return env
 
@@ -145,7 +146,16 @@ def _expr(draw, ty, depth, ivars, svars):
         if k == 2:
             return _call(draw, "ResultPandasDF", s, ["['c']"])
         return f"({s}).ResultParquet(['c'], 'f.pq')"
-    k = draw(st.integers(0, 1)) if leaf else draw(st.integers(1, 15))
+    k = draw(st.integers(0, 1)) if leaf else draw(st.integers(1, 17))
+    if k in (16, 17):
+        # operators inside the CALLEE of a call: an immediately applied lambda, a lambda picked from a list, a lambda handed
+        # through a helper first
+        q = draw(st.sampled_from(["q", "v", "s"]))
+        body = draw(_expr("I", d, ivars, svars + [q]))
+        if q not in body:
+            body = _call(draw, "Count", _call(draw, "Where", q, [f"lambda z: z > {draw(st.integers(-2, 3))}"]), [])
+        arg = draw(_expr("S", d, ivars, svars))
+        return draw(st.sampled_from([f"(lambda {q}: {body})({arg})", f"[lambda {q}: {body}, lambda {q}: 0][0]({arg})", f"ident(lambda {q}: {body})({arg})"]))
     if k == 15:  # the same sub-expression twice: check() turns the two occurrences into ONE shared node (a DAG)
         a = draw(_expr('I', d, ivars, svars))
         return f"({a} + {a})"
@@ -221,6 +231,9 @@ def exhaustive(tier):
         "{'a': {X}}['a']",
         "(1, {X})[1]",
         "[*s1, {X}][0]",
+        "(lambda z: {X})(1)",
+        "[lambda z: {X}][0](1)",
+        "ident(lambda z: {X})(1)",
     ]
     for name, pos, form in itertools.product(OPS + LOOKALIKE, positions, ["m", "f"]):
         a = _ARGS[name]
